@@ -3,7 +3,7 @@ import core
 LEVEL = 'exploration'
 RULE = ('every instruction word in the enumerated set is decoded by goom\'s arm64 decoder (and printed) and by the '
         'upstream golang.org/x/arch decoder; quick = stride-1021 walk over 2^32 (offset from seed) plus stride-257 over '
-        'branch/address/system top bytes, thorough = all 2^32 words; distinct = distinct opcodes both decoders produced')
+        'branch/address/system top bytes plus, for each of the ~1200 rows of the format table, its fixed bits with the variable bits zero, all ones and 24 random fillings; thorough = all 2^32 words; a watchdog reports a word whose decoding has not returned after 30 s; distinct = distinct opcodes both decoders produced')
 
 
 def run(ctx):
@@ -11,11 +11,14 @@ def run(ctx):
     files.update(core.vmon_files())
     files.update(core.ref_files(['arm64asm']))
     files.update(core.dir_files('harness/c17', 'zzverif/c17'))
+    files.update(core.dir_files('harness/c17/refexport', 'zzverif/ref/arm64asm'))
     b = ctx.build('c17', core.MODPATH + '/zzverif/c17', files, gcflags='')
     if ctx.thorough:
-        ctx.children(b, 4, run='TestC17', timeout=3600, parallel=1, env={'VERIF_WORKERS': '16'})
+        ctx.children(b, 4, run='TestC17', timeout=3600, parallel=1, env={'VERIF_WORKERS': '16', 'GODEBUG': 'asyncpreemptoff=0'})
         ctx.extra_cov['exhaustive'] = (ctx.evaluations == 1 << 32)
     else:
-        ctx.children(b, 1, run='TestC17', timeout=600)
+        # the decoders are pure Go: asynchronous preemption stays on, so that a decode that never returns cannot keep the
+        # collector (and with it the in-process watchdog) from running
+        ctx.children(b, 1, run='TestC17', timeout=600, env={'GODEBUG': 'asyncpreemptoff=0'})
     ctx.assumptions += ['reference = golang.org/x/arch/arm64/arm64asm as vendored in GOROOT/src/cmd (go1.23.5)',
-                        'excluded class defined by encoding: word & 0xFFC00000 == 0xD5000000 (checked for totality only)']
+                        'excluded class defined by encoding: word & 0xFFF80000 == 0xD5080000 (SYS with operands; checked for totality only) - measured to be the only part of the system space 0xD5000000..0xD53FFFFF where goom and the reference differ']
